@@ -7,10 +7,10 @@ pub enum Custom { Vehicle, Track, RaceLaps, Fuel, SmallType, CimMode, GameVersio
 #[derive(Debug, Clone, Copy)]
 pub enum Atom {
     Num { w: usize, max: Option<u64> }, Pad(usize), Enum(&'static [u8]), Flags { w: usize, mask: u64 }, Bool, Char8,
-    Count { w: usize, cap: Option<u64> }, Text { n: usize, raw: bool }, Dur { w: usize, scale: u64 }, Custom(Custom, usize),
+    Count { w: usize, cap: Option<u64> }, Text { n: usize, raw: bool, z: bool }, Dur { w: usize, scale: u64 }, Custom(Custom, usize),
 }
 #[derive(Debug, Clone, Copy)]
-pub enum Tail { None, Vec { elt: &'static [(&'static str, Atom)], padm: usize, padk: usize }, Words, TextEof { max: usize, align: usize }, Hand }
+pub enum Tail { None, Vec { elt: &'static [(&'static str, Atom)], padm: usize, padk: usize }, Words, TextEof { max: usize, align: usize, z: bool }, Hand }
 #[derive(Debug, Clone, Copy)]
 pub struct Kind { pub magic: u8, pub name: &'static str, pub fixed: &'static [(&'static str, Atom)], pub tail: Tail }
 
@@ -22,7 +22,9 @@ pub fn le(v: u64, w: usize) -> Vec<u8> { (0..w).map(|i| (v >> (8 * i)) as u8).co
 
 /// how a frame was generated: canonical frames must re-encode to themselves
 #[derive(Default, Clone, Debug)]
-pub struct Meta { pub canonical: bool, pub invalid: bool, pub rows: usize, pub notes: Vec<&'static str> }
+/// unrepresentable: the frame decodes to a value outside the encoder's domain (a text filling a NUL-terminated field completely):
+/// re-encoding is lossy by design, like any over-long text
+pub struct Meta { pub canonical: bool, pub invalid: bool, pub unrepresentable: bool, pub rows: usize, pub notes: Vec<&'static str> }
 
 pub const TRACKS: [&str; 8] = ["BL1", "SO1R", "RO10X", "LA2X", "AS7Y", "FE3", "KY2R", "WE5X"];
 pub const VERSIONS: [&str; 8] = ["0.7A", "0.6W43", "0.7E15", "0.04K", "1A", "0.7F", "12.5Z9", "0.7D64"];
@@ -59,8 +61,10 @@ pub fn gen_atom(rng: &mut Rng, a: &Atom, count: u64, dirt: u8, m: &mut Meta) -> 
         Atom::Bool => if dirty(rng) { m.canonical = false; vec![rng.range(2, 255) as u8] } else { vec![rng.below(2) as u8] },
         Atom::Char8 => vec![rng.byte()],
         Atom::Count { w, .. } => le(count, *w),
-        Atom::Text { n, raw } => {
+        Atom::Text { n, raw, z } => {
             let len = match rng.below(5) { 0 => 0, 1 => *n, 2 => n - 1, _ => rng.below(*n as u64 + 1) as usize };
+            // the NUL-terminated writer cuts to n-1 bytes: a full-width text decodes but does not re-encode identically
+            if *z && len == *n && len > 0 { m.canonical = false; m.unrepresentable = true; }
             // raw fields (passwords) are not codepage converted: only ASCII is stable there
             let mut t = if *raw { ascii_text(rng, len) } else { stable_text(rng, len) }; t.resize(*n, 0);
             if len < *n && dirty(rng) { m.canonical = false; for i in len + 1..*n { t[i] = rng.byte(); } }
@@ -122,11 +126,11 @@ pub fn gen_frame(rng: &mut Rng, k: &Kind, compressed: bool, dirt: u8, rows_hint:
             if n > 120 { m.notes.push("count>cap"); m.canonical = false; }
             m.rows = n; (n as u64, ws.iter().flat_map(|w| w.to_le_bytes()).collect())
         },
-        Tail::TextEof { max, .. } => {
+        Tail::TextEof { max, z, .. } => {
             let len = rows_hint.unwrap_or_else(|| match rng.below(5) { 0 => 0, 1 => max - 1, 2 => max - 4, _ => rng.below(max as u64) as usize }).min(max - 1);
             let mut t = stable_text(rng, len);
-            // canonical aligned form = what the writer emits: NUL-padded up to a multiple of 4
-            let total = (len + 3) / 4 * 4; t.resize(total.min(max), 0);
+            // canonical aligned form = what the writer emits: NUL-padded up to a multiple of 4 (the terminated writer always adds a NUL first)
+            let total = if z { (len + 1 + 3) / 4 * 4 } else { (len + 3) / 4 * 4 }; t.resize(total.min(max), 0);
             m.rows = len; (0, t)
         },
     };
